@@ -86,7 +86,13 @@ def execute(w, ins):
             if gl.api.configure().get('reordering'):
                 raise ValueError('not under dynamic reordering')
             limit = (gl.raw, gl.raw.max_nodes)
-            gl.raw.max_nodes = max(gl.raw._succ) + 1 + ins['alloc']
+            # exactly `alloc` more nodes fit (holes in the numbering count)
+            free, i = [], 2
+            while len(free) <= ins['alloc']:
+                if i not in gl.raw._succ:
+                    free.append(i)
+                i += 1
+            gl.raw.max_nodes = free[ins['alloc']] + 1
             w.alloc_armed = True
             w.stats['alloc_limit_armed'] += 1
         except Exception:
@@ -269,6 +275,7 @@ def run(prop, cfg, seed, trace=None, max_steps=None):
                     pass
         w.slots = []
         w.copy_caches = {}
+        w.remembered = {}
         w.close()
         w.mgrs = []
         # the parser singleton of dd keeps the manager of a parse that raised
